@@ -27,9 +27,10 @@ CONSTANTS ReqKinds,        \* subset of {"get","post","chunked","badval","badfra
           RespKinds,       \* subset of {"cl","nobody","eof","badval","garbage"}
           Policies,        \* record: hook class -> set of addon policies, classes rh rq rqs rsh rs err
           MaxFlows, MaxReqChunks, MaxRespChunks,
-          FixUpstream      \* named deviation: FALSE = handle_protocol_error leaves server_state untouched when a client
-                           \* error is forwarded upstream (the code as found, see findings_proposed/C03.md);
-                           \* TRUE = it also sets server_state = errored (the proposed repair)
+          FixUpstream      \* named deviation: TRUE = handle_protocol_error also sets server_state = errored when it forwards
+                           \* a client error upstream (the code since /repo commit 3a57873aa); FALSE = it leaves
+                           \* server_state untouched (the code as first found, findings_proposed/C03.md) -- only used to
+                           \* show that the monitor's clauses are reachable in the pre-repair model
 VARIABLES s, mon, obs, ended
 vars == <<s, mon, obs, ended>>
 
